@@ -402,6 +402,10 @@ static int read_huffman_data(struct bunzip_data *bd, struct bwdata *bw)
         runPos = 1;
         hh = 0;
       }
+      /* libxmp: a run cannot be longer than the block; stop before runPos
+       * overflows (after 32 run symbols it wrapped to 0 and the run was
+       * silently dropped). */
+      if (runPos > bd->dbufSize) return RETVAL_DATA_ERROR;
 
       /* Neat trick that saves 1 symbol: instead of or-ing 0 or 1 at
          each bit position, add 1 or 2 instead. For example,
